@@ -23,7 +23,7 @@ Mode B: form / kind / flags are decoded by explicit solver forks, the render run
 Mode A: for a slice of forms the flag bools stay symbolic, are stored on the callable, and flow through
 the real ``is_safe_callable`` / ``SandboxedEnvironment.call`` / ``Context.call`` under tracing.
 """
-from jinja2 import DictLoader, pass_context, pass_environment, pass_eval_context
+from jinja2 import DictLoader, Environment, pass_context, pass_environment, pass_eval_context
 from jinja2.exceptions import SecurityError
 from jinja2.nodes import EvalContext
 from jinja2.runtime import Context
@@ -101,12 +101,18 @@ def _env(policy, asyncm):
 
 
 # ------------------------------------------------------------------------------------ recorders
+MARKS = [True, 1, "yes"]   # a marker is any true value (is_safe_callable tests truthiness; Django sets alters_data = True)
+MARK = [0]
+
+
 def _flag(target, u, a, absent):
     """Put the two flags on `target` (a function, an instance or a class namespace dict)."""
     d = target if isinstance(target, dict) else None
     for name, v in (("unsafe_callable", u), ("alters_data", a)):
         if absent and v is False:
             continue
+        if v is True and MARK[0]:
+            v = MARKS[MARK[0]]
         if d is not None:
             d[name] = v
         else:
@@ -179,6 +185,11 @@ def make(kind, u, a, absent):
         f = type("C", (), ns)()
         if not kind.endswith("_clsflags"):
             _flag(f, u, a, absent)
+    elif kind == "macro":
+        # a template macro as the callable: the safety check applies to Macro objects like to any other callable
+        f = MACRO_ENV.from_string("{% macro f() %}{{ vfhit(varargs, kwargs, caller) }}{% endmacro %}").module.f
+        f.vf_rec = True
+        _flag(f, u, a, absent)
     elif kind == "cls":
         def new(cls, *args, **kw):
             _hit("cls", args, kw)
@@ -192,7 +203,15 @@ def make(kind, u, a, absent):
     return f, o
 
 
-KINDS = ["fn", "fn_ctx", "method", "classmethod", "cobj", "cobj_clsflags", "cobj_ctx", "cobj_evalctx", "cobj_env", "cls", "afn",
+def _vfhit(varargs, kwargs, caller):
+    _hit("macro", tuple(varargs), dict(kwargs))
+    return RET
+
+
+MACRO_ENV = Environment()
+MACRO_ENV.globals["vfhit"] = _vfhit
+
+KINDS = ["macro", "fn", "fn_ctx", "method", "classmethod", "cobj", "cobj_clsflags", "cobj_ctx", "cobj_evalctx", "cobj_env", "cls", "afn",
          "cobj_ctx_clsflags"]
 A_KINDS = ["fn", "method", "cobj_ctx", "cls", "cobj", "cobj_clsflags"]  # quick: the first four
 
@@ -342,6 +361,7 @@ def setup(param):
     P = dict(param or {})
     del CALLS[:]
     POLICY["allow"] = True
+    MARK[0] = P.get("mark", 0) % len(MARKS)
     FORMSEL = list(P.get("forms", []))
     KINDSEL = list(P.get("kinds", KINDS))
     with NoTracing():
@@ -471,10 +491,10 @@ def conditions(tier, seed):
             third = "flag absent/False" if policy in ("sandboxed", "immutable") else "policy bool"
             out.append(Cond(
                 f"unsafe never runs[{policy},forms {ci * size}..{ci * size + len(fc) - 1}]", "unsafe_never_runs", mode="B",
-                param={"policy": policy, "forms": fc, "kinds": KINDS, "xfree": xfree, "afree": afree}, timeout=to,
+                param={"policy": policy, "forms": fc, "kinds": KINDS, "xfree": xfree, "afree": afree, "mark": (ci + seed) % len(MARKS)}, timeout=to,
                 witnesses=[[0, 0, False, False, False, False], [len(fc) - 1, 6, True, True, False, False],
                            [len(fc) // 2, 2, False, False, afree, xfree], [1 % len(fc), 9, True, False, False, xfree]],
-                bounds=f"forms {fc} x callable kinds {KINDS} x sync/async x unsafe_callable x "
+                bounds=f"marker value {MARKS[(ci + seed) % len(MARKS)]!r}; forms {fc} x callable kinds {KINDS} x sync/async x unsafe_callable x "
                        f"{'alters_data' if afree else 'alters_data=False'} x {third if xfree else 'flags present'}"))
     af, ak = (A_FORMS, A_KINDS) if th else (A_FORMS[:6], A_KINDS[:4])
     for policy in ("sandboxed", "override_only", "override_and"):
